@@ -13,6 +13,7 @@ import (
 
 	metav1 "k8s.io/apimachinery/pkg/apis/meta/v1"
 	"k8s.io/apimachinery/pkg/runtime"
+	utilruntime "k8s.io/apimachinery/pkg/util/runtime"
 	"k8s.io/klog/v2"
 
 	execution "github.com/furiko-io/furiko/apis/execution/v1alpha1"
@@ -25,6 +26,13 @@ func init() {
 	fs.Set("alsologtostderr", "false")
 	fs.Set("stderrthreshold", "FATAL")
 	klog.SetOutput(io.Discard)
+	// client-go reports errors through a process-global handler list whose second
+	// entry sleeps 1ms while holding a mutex (a log throttle). Two goroutines
+	// reporting at the same instant (e.g. two WaitForCacheSync calls aborted by a
+	// crash during start-up) then block on a sync.Mutex, which is not a durable
+	// block for synctest: the bubble can never become quiescent. The throttle has no
+	// bearing on any property; it is replaced by a no-op.
+	utilruntime.ErrorHandlers = []func(error){func(error) {}}
 	if v := os.Getenv("VERIF_KLOG"); v != "" {
 		// debugging aid: the system's own log on stderr (never used by checks)
 		fs.Set("logtostderr", "true")
